@@ -1,8 +1,10 @@
 package interp
 
 import (
+	"errors"
 	"go/ast"
 	"go/build"
+	"go/build/constraint"
 	"go/parser"
 	"path"
 	"path/filepath"
@@ -18,6 +20,28 @@ func (interp *Interpreter) buildOk(ctx *build.Context, name, src string) (bool, 
 	f, err := parser.ParseFile(interp.fset, name, src, parser.PackageClauseOnly|parser.ParseComments)
 	if err != nil {
 		return false, err
+	}
+	// A //go:build line takes precedence over // +build lines, as for the toolchain.
+	var goBuild constraint.Expr
+	for _, g := range f.Comments {
+		for _, c := range g.List {
+			if !constraint.IsGoBuild(c.Text) {
+				continue
+			}
+			if goBuild != nil {
+				return false, errors.New("multiple //go:build comments")
+			}
+			if goBuild, err = constraint.Parse(c.Text); err != nil {
+				return false, err
+			}
+		}
+	}
+	if goBuild != nil {
+		if !goBuild.Eval(func(tag string) bool { return buildTagOk(ctx, tag) }) {
+			return false, nil
+		}
+		setYaegiTags(ctx, f.Comments)
+		return true, nil
 	}
 	for _, g := range f.Comments {
 		// in file, evaluate the AND of multiple line build constraints
